@@ -46,6 +46,23 @@ static _Bool verif_thrown = 0;
 #define VERIF_THROW(type) do { verif_thrown = 1; } while (0)
 #define VERIF_OBL(c, name) __CPROVER_assert(verif_thrown || (c), name)
 #define VERIF_ASSERT(c, name) __CPROVER_assert(verif_thrown || (c), name)
+/* std::min_element / std::max_element over positions [b, e) of a modelled vector: the FIRST position holding an extreme
+   element; e when the range is empty (library summary; the range must lie inside the vector) */
+#define STD_MAX_ELEMENT(v, b, e) ({ c_vecit verif_b = (b), verif_e = (e), verif_p; \
+    __CPROVER_assert(verif_thrown || (verif_b <= verif_e && verif_e <= (v).size), "std::max_element: the range lies inside the vector"); \
+    __CPROVER_assume(verif_b <= verif_p && (verif_b < verif_e ? verif_p < verif_e : verif_p == verif_e)); \
+    __CPROVER_assume(__CPROVER_forall { c_ulong verif_q; (verif_b <= verif_q && verif_q < verif_e) ==> ((v).data[verif_q] <= (v).data[verif_p] && (verif_q < verif_p ? (v).data[verif_q] < (v).data[verif_p] : 1)) }); \
+    verif_p; })
+#define STD_MIN_ELEMENT(v, b, e) ({ c_vecit verif_b = (b), verif_e = (e), verif_p; \
+    __CPROVER_assert(verif_thrown || (verif_b <= verif_e && verif_e <= (v).size), "std::min_element: the range lies inside the vector"); \
+    __CPROVER_assume(verif_b <= verif_p && (verif_b < verif_e ? verif_p < verif_e : verif_p == verif_e)); \
+    __CPROVER_assume(__CPROVER_forall { c_ulong verif_q; (verif_b <= verif_q && verif_q < verif_e) ==> ((v).data[verif_q] >= (v).data[verif_p] && (verif_q < verif_p ? (v).data[verif_q] > (v).data[verif_p] : 1)) }); \
+    verif_p; })
+/* @abstractmul units: the product of two non-constant size_t values is an uninterpreted function */
+#if !defined(VERIF_MODE_SAI)
+unsigned long __CPROVER_uninterpreted_umul(unsigned long, unsigned long);
+#define VERIF_UMUL(a, b) __CPROVER_uninterpreted_umul(a, b)
+#endif
 /* a ghost lemma: proved (obligation) where it stands, then available to the solver */
 /* an instance of an axiom schema declared with @axiom in the unit (assumed; listed in the evidence) */
 #define VERIF_INSTANTIATE(ax, term) __CPROVER_assume(ax(term))
@@ -66,6 +83,21 @@ static _Bool verif_thrown = 0;
 #define CAST(ct, src, x) (x)
 #else
 #define CAST(ct, src, x) ((ct)(x))
+#endif
+/* conversion of a NON-constant integer: CBMC's SMT back end has no bit-vector -> real conversion (constants fold).  Over the
+   reals it is an uninterpreted function of the integer value (equal integers convert to equal reals) with its sign and the
+   images of 0 and 1 */
+#ifndef INT_TO_REAL_VAR
+#if defined(INT_TO_REAL)    /* the unit brings its own conversion */
+#define INT_TO_REAL_VAR(src, x) INT_TO_REAL(src, x)
+#elif defined(VERIF_MODE_SA)
+real_t __CPROVER_uninterpreted_int_to_real(__int128);
+#define INT_TO_REAL_VAR(src, x) ({ __int128 verif_i2r = (__int128)(x); real_t verif_i2rr = __CPROVER_uninterpreted_int_to_real(verif_i2r); \
+    __CPROVER_assume(verif_i2r == 0 ? verif_i2rr == 0 : (verif_i2r > 0 ? verif_i2rr >= 1 : verif_i2rr <= -1)); \
+    __CPROVER_assume((verif_i2r != 1 || verif_i2rr == 1) && (verif_i2r != -1 || verif_i2rr == -1)); verif_i2rr; })
+#else
+#define INT_TO_REAL_VAR(src, x) ((real_t)(x))
+#endif
 #endif
 #ifndef INT_TO_REAL
 #define INT_TO_REAL(src, x) ((real_t)(x))
@@ -117,20 +149,20 @@ extern real_t verif_nan_value, verif_inf_value;
 #define VERIF_INF VERIF_VEC_CAP
 #endif
 #define DECL_VEC(T, name) struct name { T data[VERIF_INF]; unsigned long size; }
-#define VERIF_IDX(i, n, what) ({ unsigned long verif_i = (i); __CPROVER_assert(verif_thrown || verif_i < (n), what); verif_i; })
+#define VERIF_IDX(i, n, what) ({ c_ulong verif_i = (i); __CPROVER_assert(verif_thrown || verif_i < (n), what); verif_i; })
 #define ARR_IDX(i, n) VERIF_IDX(i, n, "std::array index in bounds")
 #define VEC_AT(v, i) ((v).data[VERIF_IDX(i, (v).size, "vector index in bounds")])
 /* .at(): std::out_of_range instead of UB; the exception flag is raised inside the expression and the translator
    leaves the function right after the statement (obligations in between are guarded by verif_thrown) */
-#define VEC_AT_CHECKED(v, i) ((v).data[({ unsigned long verif_i = (i); if (!(verif_i < (v).size)) verif_thrown = 1; verif_i; })])
+#define VEC_AT_CHECKED(v, i) ((v).data[({ c_ulong verif_i = (i); if (!(verif_i < (v).size)) verif_thrown = 1; verif_i; })])
 #define VEC_SIZE(v) ((c_ulong)(v).size)
 #define VEC_INIT_EMPTY(v) ((v).size = 0)
 #define VEC_CLEAR(v) ((v).size = 0)
 #define VEC_PUSH(v, x) do { (v).data[(v).size] = (x); (v).size++; } while (0)
 /* stream.read(v.data(), n): bytes [0, n) of v become arbitrary (file content, or indeterminate after a short read) */
 #define SRC_READ_VEC(v, n) do { __CPROVER_assert(verif_thrown || (unsigned long)(n) <= (v).size, "read: count within the destination buffer"); \
-    __typeof__(v) verif_h; unsigned long verif_n = (n); __CPROVER_assume(verif_h.size == (v).size); \
-    __CPROVER_assume(__CPROVER_forall { unsigned long verif_q; (verif_q >= verif_n) ==> verif_h.data[verif_q] == (v).data[verif_q] }); (v) = verif_h; } while (0)
+    __typeof__(v) verif_h; c_ulong verif_n = (n); __CPROVER_assume(verif_h.size == (v).size); \
+    __CPROVER_assume(__CPROVER_forall { c_ulong verif_q; (verif_q >= verif_n) ==> verif_h.data[verif_q] == (v).data[verif_q] }); (v) = verif_h; } while (0)
 /* stream.read(&x, n) of a scalar: x becomes arbitrary (file content, or indeterminate after a short read); a unit may
    #undef and refine this with a ghost source that records whether a read came up short */
 #define SRC_READ_SCALAR(x, n) do { __typeof__(x) verif_h; (void)(n); (x) = verif_h; } while (0)
@@ -139,7 +171,7 @@ extern real_t verif_nan_value, verif_inf_value;
 /* v.data() / s.c_str(): only meaningful as the argument of a modelled library call */
 #define VEC_DATA(v) (v)
 /* strtof & co. read up to the terminating NUL: it must lie inside the buffer */
-#define V_STRTOX(fn, v) ({ __CPROVER_assert(verif_thrown || __CPROVER_exists { unsigned long verif_q; verif_q < (v).size && (v).data[verif_q] == 0 }, #fn ": argument is NUL-terminated inside its buffer"); real_t verif_r; verif_r; })
+#define V_STRTOX(fn, v) ({ __CPROVER_assert(verif_thrown || __CPROVER_exists { c_ulong verif_q; verif_q < (v).size && (v).data[verif_q] == 0 }, #fn ": argument is NUL-terminated inside its buffer"); real_t verif_r; verif_r; })
 #define OPT_VAL(o) ((o).val)
 #define UPTR_VAL(p) (p)
 #define OPT_SET(o, v) ((o).val = (v), (o).has = 1)
